@@ -90,7 +90,7 @@ var runePool = []rune{'a', 'Z', '0', '/', '+', '#', '$', ' ', '"', '%', '\\', '\
 
 // tokens that mean something to MQTT software (shared subscriptions, system
 // topics, wildcards, empty levels); strings are built around them now and then.
-var mqttTokens = []string{"$share/", "$share/g", "$share/workers", "$share/g/t", "$share//t", "$share/g/", "$SYS/", "$SYS/broker/#", "$queue/q", "+", "#", "+/+", "a/#", "/", "//", "/a", "a/", "a//b", "$", "$share", "+/#", "MQTT", "true", "5", "*********"}
+var mqttTokens = []string{"$share/", "$share/g", "$share/workers", "$share/g/t", "$share//t", "$share/g/", "$SYS/", "$SYS/broker/#", "$queue/q", "+", "#", "+/+", "a/#", "/", "//", "/a", "a/", "a//b", "$", "$share", "+/#", "MQTT", "true", "5", "*********", " ", "  ", "\t", " \t ", "\n", "%", "%s", "%d%%", "100% full", "%!v(MISSING)"}
 
 // UTF8 returns a well-formed UTF-8 string of exactly n bytes without U+0000.
 func UTF8(r *RNG, n int) string {
